@@ -83,6 +83,7 @@ class Exploration:
     def __init__(self):
         self.transitions = []
         self.states = 0
+        self.tampered = []          # transitions after the running test re-bound a std stream itself
         self.configs = 0
         self.approx = set()
         self.init_events = []
@@ -112,6 +113,7 @@ def normalise_idle(st):
     st = dict(st)
     st['tr'] = (0, 0)
     st.pop('had_bad', None)
+    st.pop('tampered', None)
     for k in [k for k in st if k.startswith('tdict:')]:
         del st[k]                    # the next test is another object with its own dictionary
     for k, v in list(st.items()):
@@ -188,6 +190,17 @@ def _explore_one(ctx, cls, variant, config, ex):
     while q:
         (ps, fz), st = q.popleft()
         word = seen[(ps, fz)]
+        if ps == 'RUN' and not st.get('tampered') and config.get('buffer'):
+            # environment action: the running test re-binds a std stream to a stream of its own
+            # (the usual "redirect stdout to a StringIO" idiom) and does not put it back
+            for chan in ('sys.stdout', 'sys.stderr'):
+                t2 = dict(st)
+                t2[chan] = ('obj', 'user:' + chan, frozenset(['write', 'flush', 'getvalue']))
+                t2['tampered'] = True
+                key = ('RUN', freeze(t2))
+                if key not in seen:
+                    seen[key] = word + ('<test re-binds %s>' % chan,)
+                    q.append((key, t2))
         for ev_name, dst in by_src.get(ps, []):
             meth, args = EVENTS[ev_name]
             outs = interp.call_method(meth, list(args), st)
@@ -205,7 +218,7 @@ def _explore_one(ctx, cls, variant, config, ex):
                 tr = Transition(variant=variant, config=config, word=word + (ev_name,),
                                 event=ev_name, src=ps, dst=d2, pre=st, post=post, ctrl=ctrl,
                                 events=events, method=meth)
-                ex.transitions.append(tr)
+                (ex.tampered if st.get('tampered') else ex.transitions).append(tr)
                 if d2 in ('CRASHED', 'STOPPED', 'ABORTED'):
                     continue
                 if ev_name in BAD_E and d2 != 'IDLE':
